@@ -32,8 +32,51 @@ def showV : VRes → String
 /-- `H(m) = h • G1base`, `h = keccak256(m) mod r` supplied in the line -/
 def hashPt (h : Fr) : G1.Pt := h • G1.base
 
+/-- one call of a history case (`hist`): the calls of one line share mutable message buffers on the
+Go side; the functions are pure in the message VALUE, so the model only tracks, per buffer, the hash
+scalar of the bytes it holds at call time (`w` steps carry it). -/
+def histStep (t n : Nat) (f : List Fr) (bufs : List (Nat × Fr)) (st : String) :
+    List (Nat × Fr) × String :=
+  let look (b : Nat) : Option Fr := (bufs.find? (fun e => e.1 == b)).map (·.2)
+  match st.splitOn ":" with
+  | ["w", b, h, _msg] =>
+    match b.toNat?, parseZ (q := G1.r) h with
+    | some b, some h => ((b, h) :: bufs.filter (fun e => e.1 != b), "w")
+    | _, _ => (bufs, "bad-op")
+  | ["s", b, i] =>
+    match b.toNat?.bind look, i.toNat? with
+    | some h, some i => (bufs, "ok " ++ hexFull (tblsSign g1Codec f (hashPt h) i))
+    | _, _ => (bufs, "bad-op")
+  | ["bs", b] =>
+    match b.toNat?.bind look with
+    | some h => (bufs, "ok " ++ hexFull (blsSign g1Codec (f.headD 0) (hashPt h)))
+    | _ => (bufs, "bad-op")
+  | ["v", b, sig] =>
+    match b.toNat?.bind look, ofHex sig with
+    | some h, some sig => (bufs, showV (tblsVerifyR g1Codec f (hashPt h) sig))
+    | _, _ => (bufs, "bad-op")
+  | ["bv", b, sig] =>
+    match b.toNat?.bind look, ofHex sig with
+    | some h, some sig => (bufs, showV (blsVerifyR g1Codec (f.headD 0) (hashPt h) sig))
+    | _, _ => (bufs, "bad-op")
+  | ["r", b, es] =>
+    match b.toNat?.bind look, parseEntries es with
+    | some h, some es => (bufs, showRes (recover g1Codec f (hashPt h) es t n))
+    | _, _ => (bufs, "bad-op")
+  | _ => (bufs, "bad-op")
+
+def histRun (t n : Nat) (f : List Fr) (steps : List String) : String :=
+  let r := steps.foldl (fun (acc : List (Nat × Fr) × List String) st =>
+    let (b', o) := histStep t n f acc.1 st
+    (b', o :: acc.2)) ([], [])
+  String.intercalate "/" r.2.reverse
+
 def step (line : String) : String :=
   match words line with
+  | ["hist", t, n, f, steps] =>
+    match t.toNat?, n.toNat?, parseZs (q := G1.r) f with
+    | some t, some n, some f => histRun t n f (steps.splitOn "/")
+    | _, _, _ => "bad-op"
   | ["rec", t, n, h, pub, _msg, es] =>
     match t.toNat?, n.toNat?, parseZ (q := G1.r) h, parseZs (q := G1.r) pub, parseEntries es with
     | some t, some n, some h, some pub, some es => showRes (recover g1Codec pub (hashPt h) es t n)
